@@ -277,8 +277,8 @@ def laws():
             "dot(f,g)*h": lambda: V.VectorDot(f(t), gg(t)) * h(t),
         }[name]()
 
-    DS = [(op, tx, ty, o, order) for order in (1, 2) for op in (("norm", "dot", "cross", "mixed", "scale", "sum") if order == 1 else ("dot", "cross", "mixed", "scale", "sum"))
-          for tx in (DT if order == 1 else DT[:4]) for ty in ((DT if order == 1 else DT[:3]) if op in ("dot", "cross", "mixed", "sum") else ["a"]) for o in ((0, 1), (1, 0))]
+    DS = [(op, tx, ty, o, order) for order in (1, 2) for op in (("norm", "norm-held", "dot", "cross", "mixed", "scale", "sum") if order == 1 else ("dot", "cross", "mixed", "scale", "sum"))
+          for tx in ((DT[:5] if op == "norm-held" else DT) if order == 1 else DT[:4]) for ty in ((DT if order == 1 else DT[:3]) if op in ("dot", "cross", "mixed", "sum") else ["a"]) for o in ((0, 1), (1, 0))]
 
     @law("_eval_derivative/derivative-of-value-equals-value-of-derivative(orders-1-and-2)", DS,
          ["VectorNorm._eval_derivative", "VectorDot._eval_derivative", "VectorCross._eval_derivative",
@@ -300,13 +300,15 @@ def laws():
         X = dtemplate(tx, V, sy, t, fs1, kf)
         Y = dtemplate(ty, V, sy, t, fs2, g.fun("kg", [t]))
         W = fs2[2](t)
-        E = {"norm": lambda: V.VectorNorm(X), "dot": lambda: V.VectorDot(X, Y), "cross": lambda: V.VectorCross(X, Y),
+        # norm-held: a norm kept unevaluated (evaluate=False) and evaluated "on request" by the derivative; the template
+        # dot(f,g)*h is left out for it (both solvers time out on the unchanged tree: undecided, out of reach)
+        E = {"norm": lambda: V.VectorNorm(X), "norm-held": lambda: V.VectorNorm(X, evaluate=False), "dot": lambda: V.VectorDot(X, Y), "cross": lambda: V.VectorCross(X, Y),
              "mixed": lambda: V.VectorMixedProduct(X, Y, W), "scale": lambda: kf * X, "sum": lambda: X + Y}[op]()
         D = sp.sympify(E).diff(t, order)
         kd, d = sem(D, env)
         ke, e = sem(E, env)
         assume = []
-        if op == "norm":
+        if op in ("norm", "norm-held"):
             x = _asvec(*sem(X, env))
             assume = [sp.Gt(dot3(x, x), 0)]
         if ke == "v" or kd == "v":
